@@ -110,7 +110,13 @@ def gen_case(rng):
         cs = {'op': 'f_reduce', 'f': f, 'fn': 'var' if fn == 'std' else fn, 'axis': rng.choice([0, 1]), 'skipna': rng.random() < 0.6, 'ddof': rng.choice([0, 1]) if fn in ('var', 'std') else 0}
         if fn == 'std':
             cs['via'] = 'std'
-    elif r < 0.82:
+    elif r < 0.87:
+        if rng.random() < 0.4:
+            # an axis of length one (one row, or one column) holding missing values: accumulating over a single position still skips them
+            one_row = rng.random() < 0.5
+            f = C.rand_frame(rng, 1 if one_row else 4, 4 if one_row else 1, kinds=rng.choice(['f', 'if', 'f']), min_rows=1, min_cols=1, na=0.5, index_kind='str', columns_kind='str', name=False)
+            for c in f['cols']:
+                c['vals'] = [['i', max(-3, min(3, v[1]))] if v[0] == 'i' else v for v in c['vals']]
         cs = {'op': 'f_cum', 'f': f, 'fn': rng.choice(['cumsum', 'cumprod']), 'axis': rng.choice([0, 1]), 'skipna': rng.random() < 0.6}
     else:
         cs = {'op': 'f_arg', 'f': f, 'fn': rng.choice(['argmin', 'argmax']), 'axis': rng.choice([0, 1]), 'skipna': True}
